@@ -116,6 +116,25 @@ def run(pm, ctx):
                               "that every later insertion has", line=st.lineno, site=site)
             continue
         leaf = norm_src(val)
+        if leaf == "0" and not any(isinstance(p_, (ast.While, ast.For)) for p_ in parents(node)):
+            # the root inserted by a statement before the loop: it needs the min_samples_split guard on the whole data
+            tn = [p_.test for p_ in parents(node) if isinstance(p_, ast.If) and _in_body(p_, node)]
+            okr = False
+            for t in tn:
+                for cand in ("len(X) >= self.min_samples_split", "n >= self.min_samples_split", "X.shape[0] >= self.min_samples_split"):
+                    try:
+                        from ..e6_algebra import compare_normal
+                        d1, o1 = compare_normal(t)
+                        d2, o2 = compare_normal(ast.parse(cand, mode="eval").body)
+                        okr = okr or (o1 == o2 and d1.equals(d2))
+                    except Exception:
+                        pass
+            if okr and depth_ok_root:
+                ctx.ok("C09-a", site, "root guarded by min_samples_split; depth 0 < max_depth by the validated domain")
+            else:
+                ctx.violation("C09-a", ku.relpath, "Kauri.fit", norm_src(st), "the root enters the worklist without the min_samples_split guard that every later insertion has",
+                              line=st.lineno, site=site)
+            continue
         idx = {"best_split.leaf": "left_indices", "n_leaves": "right_indices"}.get(leaf)
         tnodes = [p.test for p in parents(node) if isinstance(p, ast.If) and _in_body(p, node)]
         tests = [norm_src(t) for t in tnodes]
